@@ -10,9 +10,9 @@
      ncmpio_getput.m4 : GETPUT_API, NC_REQ_ZERO -> ncmpio_getput_zero_req (skips the Allreduce)
                                                                               -> PInvalid / hung
      ncmpio_fill.c    : fill_var_rec (max_numrecs = recno+1, Allreduce, update); the dispatcher
-                        ncmpi_fill_var_rec computes NC_EINDEP/NC_EINDEFINE but only returns it in
-                        safe mode, so outside safe mode the call proceeds in any mode
-                                                                              -> fill_rec
+                        ncmpi_fill_var_rec returns NC_EINDEFINE / NC_EINDEP before calling the driver
+                        (since the repair 080701ed also outside safe mode), so the call has no
+                        effect in define or independent mode                  -> fill_rec
      ncmpio_i_getput.m4 : ncmpio_igetput_varm, queue insertion (SORT_LEAD_LIST_BASED_ON_VAR_BEGIN:
                         scan from the tail while put_lead_list[i].varp->begin > req_off), max_rec
                                                                               -> enqueue, post
@@ -169,7 +169,8 @@ Definition indep_put_rec (i : nat) (p : part) (st : state) : state :=
          end) (ranks st)).
 
 Definition fill_rec (recnos : list Z) (st : state) : state :=
-  if negb (length recnos =? length (ranks st))%nat then st
+  if indef st || indep st then st                       (* NC_EINDEFINE / NC_EINDEP returned by the dispatcher *)
+  else if negb (length recnos =? length (ranks st))%nat then st
   else
     let rp := combine (ranks st) recnos in
     let mx := zmaxl (map (fun x => snd x + 1) rp) in
